@@ -192,7 +192,9 @@ func (pm *pathManagerOutgoing) removePathImpl(id pathID) error {
 	if !ok {
 		return nil
 	}
-	if len(p.pathChallenges) > 0 {
+	// The connection ID taken for the first PATH_CHALLENGE stays assigned to the path
+	// after the path was validated (validation clears pathChallenges).
+	if len(p.pathChallenges) > 0 || p.isValidated {
 		pm.retireConnID(id)
 	}
 	delete(pm.paths, id)
